@@ -15,5 +15,7 @@ cp $REPO/go.sum $B/sim.go.sum
 ( cd $V/sim && $GO test -c -tags verif -overlay $B/overlay/overlay.json -modfile $B/sim.go.mod -o $B/sim.test . )
 # the example program (C17) with its overlay-added test entry point
 cp $REPO/go.mod $B/repo.go.mod
+# same for the example program: ECDSA keys and signatures repeat under cryptotest.SetGlobalRandom only with cryptocustomrand=0
+grep -q "^godebug cryptocustomrand" $B/repo.go.mod || printf "\ngodebug cryptocustomrand=0\n" >> $B/repo.go.mod
 cp $REPO/go.sum $B/repo.go.sum
 ( cd $REPO && $GO test -c -tags verif -overlay $B/overlay/overlay.json -modfile $B/repo.go.mod -o $B/simulation.test ./internal/simulation )
